@@ -471,3 +471,23 @@ def run(ctx: Ctx):
     c.check_crop_dim()
     c.check_width_ops()
     return EXPLANATION, ASSUMPTIONS
+
+
+def thorough(ctx: Ctx):
+    """Package-wide sweep of the R17.1 pattern (np.arange over non-integer arguments); NOTE lines only --
+    outside extend_dim_width the property states no exact-count contract, range-based generation is inherent."""
+    import ast
+    n = 0
+    for mod in ctx.index.modules.values():
+        for name, defs in mod.defs.items():
+            for d in defs:
+                if not isinstance(d, ast.FunctionDef):
+                    continue
+                s = ctx.summ.of_func(mod.name, name)
+                for e in s.calls:
+                    if e.term[1] == NP("arange"):
+                        args = list(e.term[2]) + [v for k, v in e.term[3] if k != "dtype"]
+                        if not all(is_int_term(a, {("param", "width"), ("param", "size")}) for a in args):
+                            n += 1
+                            ctx.note(f"sweep R17.1: float np.arange in {mod.relpath}:{e.lineno} {name} ({show(e.term)[:60]})")
+    ctx.extra["float_arange_sites_package_wide"] = n
